@@ -16,7 +16,8 @@ package main
 // arrive the message is delivered complete with the concatenated body.  Clock steps stay at least
 // 5 ms away from the two limits (the implementation reads the wall clock).
 // Socket level: the same against a real server with real sleeps (one 5.1 s scenario in the quick
-// tier, 5 s / 61 s scenarios in the thorough tier): the 0x8003 frame on the wire, its platform
+// tier - eight transfers of different ids stalling together, so that one read generates more
+// re-requests than reissuePackChan buffers -, 5 s / 61 s scenarios in the thorough tier): the 0x8003 frame on the wire, its platform
 // serial, the write callback, completion after resupply.
 
 import (
